@@ -2472,7 +2472,10 @@ ASSUMPTIONS = [
     "the oracle is the same code at a different history (a fresh twin); history-independent errors are out of scope (C06 etc.)",
     "numpy/scipy/CPython 3.12 are deterministic for equal inputs in equal processes (measured by selftest-determinism)",
     "segments edited while inside another live path retire that path from the arena (the property promises nothing there)",
-    "tolerances stricter than the default are not value-judged; Arc is not sent value-returning non-default tolerances",
+    "Arc is not sent value-returning non-default tolerances (the statement's tolerance clause names Line/Quadratic/Cubic)",
+    "on rounding-tainted objects (both ends of a reversed() relation, and paths holding them) answers are compared with rtol 1e-9, joints are inconclusive, and derivative/unit_tangent/curvature/normal/cropped/ilength/area/intersect/radialrange are executed but not judged",
+    "after a stricter-than-default tolerance request the object's other length-dependent answers are not judged (its lengths stay judged by membership in the set of legitimately cached values)",
+    "intersect runs under a 3 s wall-clock limit and its outcome is not logged (keeps digests independent of real time)",
 ]
 EXPECTED_PROBES = [
     "mutation_after_warm_cache", "query_after_mutation_after_warm", "query_on_empty_path", "path_emptied",
